@@ -80,3 +80,41 @@ def summary_of(prog: Program, qualname: str) -> Summary:
 
 def chain_text(eff: Effect) -> List[str]:
     return [str(s) for s in eff.chain]
+
+
+def pkg_call_hook(prog: Program, mod, self_cls=None, self_name: str = "self"):
+    """Translator call hook: calls of package functions / methods of ``self_cls`` become
+    Function(name)(args in parameter order, defaults filled in) - independent of keyword order."""
+    import ast as _ast
+    import sympy as _sp
+    from ..astutil import bind_call
+
+    def hook(call, T):
+        f, skip, recv = None, False, None
+        if isinstance(call.func, _ast.Name):
+            r = prog.resolve_name(mod, call.func.id)
+            if r and r[0] == "func":
+                f = r[1]
+        elif isinstance(call.func, _ast.Attribute) and self_cls is not None:
+            base = call.func.value
+            m = self_cls.find_method(call.func.attr)
+            if m is not None and isinstance(base, _ast.Name) and base.id == self_name:
+                f, skip, recv = m, m.kind in ("method", "classmethod"), T.tr(base)
+        if f is None:
+            return None
+        names = f.params[1:] if skip else list(f.params)
+        bound = bind_call(call, f.params, skip_first=skip)
+        defaults = f.defaults()
+        args = [recv] if recv is not None else []
+        for p in names:
+            if p in bound:
+                args.append(T.tr(bound[p]))
+            elif p in defaults:
+                args.append(_sp.Function("default")(T.tr(defaults[p])))
+            else:
+                args.append(_sp.Symbol("<missing>"))
+        extra = [k for k in bound if k not in names]
+        for k in sorted(extra):
+            args.append(_sp.Function("kw_" + k)(T.tr(bound[k])))
+        return _sp.Function(f.name)(*args)
+    return hook
